@@ -84,8 +84,11 @@ TEXT = {
            "those guards; any interleaving, loss, duplication, reordering of messages): election safety, log matching, leader completeness and "
            "state-machine safety for every reachable state under membership changes, and a machine-checked counterexample for the variant without "
            "the own-term-commit guard. The abstract reconfiguration protocol has no crash/snapshot steps (those are in Abs/Raft.v for a static voter "
-           "set) and is linked to the code through the node-level guard theorems and the per-event correspondence, not by a history checker; the "
-           "monitors for C01/C02 run under membership-changing schedules.",
+           "set). It is tied to the code twice: through the node-level guard theorems plus the per-event correspondence, and by a history checker "
+           "(Abs/CfgExec.v, proved sound, theorems in Props/CfgTie.v): on every run, membership-changing whole-cluster histories of the real nodes "
+           "(random schedules and the scenario corpus; no crashes, no snapshots) are translated into actions of Abs/CfgRaft.v and accepted only if "
+           "every action is enabled and the abstract nodes agree with the observed terms, logs, roles and commit indices - so election safety, log "
+           "matching and state-machine safety are theorems about what was observed (cfg_observed_*).",
   "design_ref": "DESIGN.md 5 (C08)", "note": NODE_NOTE,
   "technique": "Coq inductive-invariant proof of Raft safety with single-voter membership changes (abstract protocol) + Coq proofs of the node-level reconfiguration rules + differential correspondence + targeted schedules",
  },
@@ -134,7 +137,7 @@ TEXT = {
            "tied to the code on every run by per-event differential execution on a deterministic simulator driving real *Raft values, and a monitor "
            "looks for two leaders in one term on the implementation. The vote requests delivered in the simulator are the bytes the candidate's own "
            "goroutines wrote, and the reply a candidate reads is the reply to the request it wrote (pool_replies_paired, real connPool against a "
-           "scripted peer). PARTIAL where stated: voter-set changes need the overlap hypothesis of C08."
+           "scripted peer). Under membership changes: cfg_election_safety (Props/C08_abs.v) and the membership-changing histories checked by Abs/CfgExec.v (see C08)."
            " Cluster-level tie (Props/AbsTie.v): whole-cluster histories observed on real nodes (static membership; snapshots, compaction and snapshot installation included) are checked on every run by the executable, proved-sound checker Abs/Exec.v to be runs of the abstract protocol these theorems are about, so the theorems hold of the observed projections (observed_* theorems); histories with membership changes are covered by the node-level rules, correspondence and monitors only.",
   "design_ref": "DESIGN.md 4.4, 5 (C01), Appendix C",
   "note": NODE_NOTE,
